@@ -86,6 +86,18 @@ theorem C12_steps_safe :
     OnceMig migrateSteps = true ∧ OnceRecPartial = true ∧ OnceCycle = true := by
   decide
 
+/-- **C12_copy_src_error_propagates.** The model treats a source-read failure of the streaming copy
+(`Outcome.srcfail`) as a failure of the whole copy step (no object under the final cold name); that
+is justified by the shape factgen re-checks in `copyFileStreaming` on every run (the reader's error
+closes the pipe WITH the error and is returned). -/
+theorem C12_copy_src_error_propagates : copySrcErrPropagates = true := by decide
+
+/-- … and in the model a source-read failure at any chunk never produces a cold object under the final name. -/
+theorem C12_srcfail_no_final_object (k w : Nat) (x : Exec) (r : List Outcome)
+    (h : x.orc = Outcome.srcfail :: r) :
+    (copyChunks (k + 1) w x).2 = R.failed ∧ (copyChunks (k + 1) w x).1.st = x.st := by
+  simp [copyChunks, pop, h]
+
 /-! ## helper lemmas -/
 
 theorem inv_of_all {l : List Abs} {a : Abs} (h : l.all Abs.inv = true) (ha : a ∈ l) : a.inv = true :=
